@@ -83,8 +83,10 @@ package store
 //@ ghost var gotWantHasO bool
 //@ ghost var gotFound bool
 //@ ghost var gotGiven types.AccessMode
+//@ ghost var subGets int
 //@ func (s SubsPersistenceInterface) Get(topic string, user types.Uid, keepDeleted bool) (sub *types.Subscription, err error)
-//@   modifies gotWantHasO, gotFound, gotGiven
+//@   modifies gotWantHasO, gotFound, gotGiven, subGets
+//@   ensures [C07] subGets == old(subGets) + 1
 //@   ensures [C06] sub != nil ==> gotWantHasO == ((sub.ModeWant & types.ModeOwner) != 0)
 //@   ensures [C07] gotFound == (sub != nil) && (sub != nil ==> gotGiven == sub.ModeGiven)
 // (C13, assumed of the store: subscription rows exist only for topics that were created, and those have well-formed names)
